@@ -58,7 +58,8 @@ def scalar_cell(x):
         x = builtins.float(x)
         if x != x or x in (float("inf"), float("-inf")):
             return x
-        return Fraction(x) if x != int(x) else Fraction(int(x))
+        from .sym import float_to_fraction
+        return float_to_fraction(x)
     if isinstance(x, Fraction):
         return x
     raise TypeError("not a scalar: %r" % (x,))
@@ -1024,6 +1025,8 @@ def sum_(a, axis=None):
     a = list(a)
     if not a:
         return 0.0
+    if builtins.any(_is_nan(x) for x in a):
+        return float("nan")
     tot = a[0]
     for x in a[1:]:
         tot = tot + x
@@ -1056,11 +1059,24 @@ def _numlist(l):
     return list(l)
 
 
+def _is_nan(x):
+    return isinstance(x, builtins.float) and x != x
+
+
+def _has_inf(v):
+    return builtins.any(isinstance(x, builtins.float) and x in (float("inf"), float("-inf")) for x in v)
+
+
 def average(l, **kw):
     v = _numlist(l)
     if len(v) == 0:
         return float("nan")   # numpy: mean of empty slice
-    _reject_nonfinite(v)
+    if builtins.any(_is_nan(x) for x in v):
+        return float("nan")
+    if _has_inf(v):
+        if builtins.all(not isinstance(x, Sym) for x in v):
+            return builtins.float(rnp.mean([builtins.float(x) for x in v]))
+        raise Unsupported("infinite value in a symbolic list statistic")
     tot = v[0]
     for x in v[1:]:
         tot = tot + x
@@ -1070,28 +1086,51 @@ def average(l, **kw):
 mean = average
 
 
+def nanmean(l, **kw):
+    v = [x for x in _numlist(l) if not _is_nan(x)]
+    return average(v)
+
+
+def nanstd(l, axis=None, ddof=0, **kw):
+    v = [x for x in _numlist(l) if not _is_nan(x)]
+    return std(v, axis=axis, ddof=ddof)
+
+
+def nanmin(l, **kw):
+    return _minmax_list([x for x in _numlist(l) if not _is_nan(x)], False)
+
+
+def nanmax(l, **kw):
+    return _minmax_list([x for x in _numlist(l) if not _is_nan(x)], True)
+
+
+def nansum(l, **kw):
+    return sum_([x for x in _numlist(l) if not _is_nan(x)])
+
+
 def _reject_nonfinite(v):
     for x in v:
         if isinstance(x, builtins.float) and (x != x or x in (float("inf"), float("-inf"))):
             raise Unsupported("non-finite value in list statistic")
 
 
-def std(l, **kw):
-    """population standard deviation; the square root is a fresh non-negative real s with s*s == variance"""
+def std(l, axis=None, ddof=0, **kw):
+    """np.std of a list: trusted numpy routine.  The result is a fresh non-negative real; the list and ddof it was
+    called with are recorded (ENG.path_cache['std']) so that harnesses can state 'the standard deviation reported is the
+    population standard deviation of exactly this list' as an obligation about the arguments (no nonlinear constraint)."""
+    if kw or axis is not None:
+        raise Unsupported("np.std options %r" % (kw,))
     v = _numlist(l)
     if len(v) == 0:
         return float("nan")
+    if builtins.any(_is_nan(x) for x in v):
+        return float("nan")
     _reject_nonfinite(v)
     if builtins.all(not isinstance(x, Sym) for x in v):
-        return builtins.float(rnp.std([builtins.float(x) for x in v]))
-    m = average(v)
-    var = None
-    for x in v:
-        d = _mk_float(x) - m
-        var = d * d if var is None else var + d * d
-    var = var / len(v)
+        return builtins.float(rnp.std([builtins.float(x) for x in v], ddof=ddof))
     s = z3.Real(ENG.fresh_name("std"))
-    ENG.assume(z3.And(s >= 0, s * s == var.t))
+    ENG.assume(s >= 0)
+    ENG.path_cache.setdefault("std", {})[str(s)] = ([to_real(zterm(x)) if not isinstance(x, Sym) else to_real(x.t) for x in v], ddof)
     return SNum(s, "float64")
 
 
@@ -1099,8 +1138,20 @@ def _minmax_list(l, want_max):
     v = _numlist(l)
     if len(v) == 0:
         raise ValueError("zero-size array to reduction operation")
+    if builtins.any(_is_nan(x) for x in v):
+        return float("nan")
     _reject_nonfinite(v)
-    return builtins.max(v) if want_max else builtins.min(v)
+    if builtins.all(not isinstance(x, Sym) for x in v):
+        return builtins.max(v) if want_max else builtins.min(v)
+    # symbolic: one ITE chain instead of forking on the order of the values
+    ts = [x.t if isinstance(x, Sym) else zterm(x) for x in v]
+    if builtins.any(t.sort() == REAL for t in ts):
+        ts = [to_real(t) for t in ts]
+    m = ts[0]
+    for t in ts[1:]:
+        m = z3.If(t > m, t, m) if want_max else z3.If(t < m, t, m)
+    dts = [x.dtype for x in v if isinstance(x, SNum) and x.dtype is not None]
+    return SNum(z3.simplify(m), dts[0] if dts else None)
 
 
 def min_(l, **kw):
@@ -1368,6 +1419,12 @@ def build_module():
     m.average = average
     m.mean = mean
     m.std = std
+    m.nanmean = nanmean
+    m.nanstd = nanstd
+    m.nanmin = nanmin
+    m.nanmax = nanmax
+    m.nansum = nansum
+    m.median = lambda *a, **k: (_ for _ in ()).throw(Unsupported("numpy.median"))
     m.min = min_
     m.max = max_
     m.isnan = isnan
